@@ -36,6 +36,8 @@ type Conn struct {
 	closeCount int
 
 	writes      [][]byte
+	frames      [][]byte // complete frames written so far (parsed incrementally)
+	frest       []byte   // stream: bytes after the last complete frame
 	onWrite     func(seq int, b []byte) error // runs inside Write, before it returns
 	syncWrites  bool
 	failWriteAt map[int]error
@@ -131,6 +133,19 @@ func (c *Conn) Write(p []byte) (int, error) {
 	b := append([]byte(nil), p...)
 	c.writes = append(c.writes, b)
 	c.lastWriteAt = time.Now()
+	if c.Datagram {
+		c.frames = append(c.frames, b)
+	} else {
+		c.frest = append(c.frest, b...)
+		for len(c.frest) >= 2 {
+			l := int(c.frest[0])<<8 | int(c.frest[1])
+			if len(c.frest)-2 < l {
+				break
+			}
+			c.frames = append(c.frames, append([]byte(nil), c.frest[2:2+l]...))
+			c.frest = c.frest[2+l:]
+		}
+	}
 	h := c.onWrite
 	sync := c.syncWrites
 	c.cond.Broadcast()
@@ -157,6 +172,10 @@ func (c *Conn) Close() error {
 
 func (c *Conn) SetDeadline(t time.Time) error {
 	c.mu.Lock()
+	if c.closed { // like a real socket
+		c.mu.Unlock()
+		return ErrClosed
+	}
 	c.deadlineLog = append(c.deadlineLog, DeadlineEvent{"both", time.Now(), t})
 	c.setRDLocked(t)
 	c.wdlSets++
@@ -174,6 +193,10 @@ func (c *Conn) SetReadDeadline(t time.Time) error {
 		<-g
 		c.mu.Lock()
 	}
+	if c.closed { // like a real socket
+		c.mu.Unlock()
+		return ErrClosed
+	}
 	c.deadlineLog = append(c.deadlineLog, DeadlineEvent{"read", time.Now(), t})
 	c.setRDLocked(t)
 	c.mu.Unlock()
@@ -189,6 +212,10 @@ func (c *Conn) setRDLocked(t time.Time) {
 
 func (c *Conn) SetWriteDeadline(t time.Time) error {
 	c.mu.Lock()
+	if c.closed {
+		c.mu.Unlock()
+		return ErrClosed
+	}
 	c.wdlSets++
 	c.deadlineLog = append(c.deadlineLog, DeadlineEvent{"write", time.Now(), t})
 	c.mu.Unlock()
@@ -405,32 +432,23 @@ func (c *Conn) FireReadDeadline() bool {
 
 // ---------------------------------------------------------------- framing helper (independent of mosdns)
 
-// Frames re-frames everything written so far. Datagram: one frame per Write. Stream:
-// 2-byte big-endian length prefix, parsed across Write boundaries. rest = trailing bytes
-// that do not form a complete frame.
+// Frames returns every complete frame written so far. Datagram: one frame per Write.
+// Stream: 2-byte big-endian length prefix, parsed across Write boundaries (independently
+// of how mosdns split its writes). rest = trailing bytes that do not form a complete frame.
 func (c *Conn) Frames() (frames [][]byte, rest []byte) {
-	ws := c.Writes()
-	if c.Datagram {
-		for _, w := range ws {
-			if w != nil {
-				frames = append(frames, w)
-			}
-		}
-		return frames, nil
+	c.mu.Lock()
+	defer c.mu.Unlock()
+	return append([][]byte(nil), c.frames...), append([]byte(nil), c.frest...)
+}
+
+// FramesFrom returns the complete frames with index >= i.
+func (c *Conn) FramesFrom(i int) [][]byte {
+	c.mu.Lock()
+	defer c.mu.Unlock()
+	if i >= len(c.frames) {
+		return nil
 	}
-	var all []byte
-	for _, w := range ws {
-		all = append(all, w...)
-	}
-	for len(all) >= 2 {
-		l := int(all[0])<<8 | int(all[1])
-		if len(all)-2 < l {
-			break
-		}
-		frames = append(frames, all[2:2+l])
-		all = all[2+l:]
-	}
-	return frames, all
+	return append([][]byte(nil), c.frames[i:]...)
 }
 
 // Frame wraps msg for this connection's framing.
